@@ -59,6 +59,7 @@ def gen_scenario(rng):
                 handle=rng.choice(['same', 'same', 'fresh']),       # unregister with the registered object or with a freshly built equal one
                 update=rng.choice([None, None, None, 'victim', 'other']),   # an update_service (new object, new port and TXT) well before the queries
                 second=rng.choice([None, 130, 400, 1500]) if len(svcs) > 1 and mode == 'unregister' else None,
+                rereg=rng.random() < 0.3,
                 mcast=[rng.choice([20, 70, 120]) for _ in range(40)], tcd=[rng.choice([400, 450, 500]) for _ in range(10)])
 
 
@@ -155,6 +156,15 @@ def run_scenario(sc):
                     fut2 = await a.zc.async_unregister_service(infos[other])
                     await fut2
                     res['t_done2'] = sim.now
+                if sc.get('rereg') and sc['second'] is None:
+                    # the application renames the object it has just withdrawn and registers it again (the name setter, as a rename after a
+                    # conflict does): what is announced and answered from now on belongs to the new name only
+                    await sim.sleep(1200)
+                    info = infos[sc['victim']]
+                    info.name = 'again-' + info.name
+                    res['t_rereg'] = sim.now
+                    rid, task = nr.register(info, cooperating_responders=True)
+                    await task
             else:
                 await a.azc.async_close()
                 res['t_done'] = sim.now
@@ -237,6 +247,8 @@ def oracle(sc, res):
         for ms, dest, m in parsed:
             if ms > byes[2] and not m.is_query():
                 for r in m.answers():
+                    if 't_rereg' in res and ms >= res['t_rereg'] and r.name.lower() == s['server'].lower():
+                        continue        # (the host's address records belong to the re-registered service again)
                     if r.ttl > 0 and ident(r) in want:
                         return (f"{s['name']}: record {r} transmitted with TTL {r.ttl} at +{ms - tu}, after the goodbye sequence completed at +{byes[2] - tu}")
     return None
